@@ -11,18 +11,19 @@ module A = ArangesRd
 exception MPanic
 exception MFuel
 
-(* The driver shards by emit count and drops the cases of other shards; evaluating the model for those is
-   wasted work (16x). Same counter here: cases of other shards are emitted with empty expectations. *)
-let shard, nshards =
-  match Array.to_list Sys.argv with
-  | _ :: "gen" :: _ :: _ :: _ :: a :: b :: _ -> (try (int_of_string a, int_of_string b) with _ -> (0, 1))
-  | _ -> (0, 1)
-let emitted = ref 0
-let both (emit : emit) case (f : bool -> string) =
-  let mine = !emitted mod nshards = shard in
-  incr emitted;
-  if mine then emit case (f true) (f false) else emit case "" ""
-let emit_fixed (emit : emit) case e = incr emitted; emit case e e
+let emit_fixed (emit : emit) case e = emit case e e
+
+(* the random share of a stream: one case per iteration, each from its own generator state, so that the
+   iterations of other shards can be skipped without building their inputs *)
+let for_random ~seed ~n (f : rng -> unit) =
+  for i = 1 to n do
+    if Streams.mine () then begin
+      let before = !Streams.idx in
+      f (mk_rng (seed * 1000003 + i));
+      if !Streams.idx = before then Streams.skip ()
+      else if !Streams.idx > before + 1 then failwith "for_random: more than one case per iteration"
+    end else Streams.skip ()
+  done
 
 let ename = Errnames.name
 let sn = string_of_n
@@ -207,7 +208,7 @@ let gen_index ~seed ~n emit =
       [[2; 0; 0; 0]; [0; 0; 0; 2]; [5; 0; 0; 0]; [0; 5; 0; 0]; [5; 0; 1; 2]; [0; 5; 0xff; 0xff]; [2; 0; 5; 0]; [0; 2; 0; 5];
        [4; 0; 0; 0]; [6; 0; 0; 0]; [0; 0; 0; 0]; [2; 0; 0; 1]; [5; 5; 5; 5]; [0; 0; 0; 5]; [3; 0; 0; 0]]) [false; true];
   (* 6. random structured + malformed *)
-  for _ = 1 to n do
+  for_random ~seed ~n (fun r ->
     let be = rand_bool r in
     let v2 = rand_bool r in
     let k = rand_int r 6 in
@@ -236,9 +237,9 @@ let gen_index ~seed ~n emit =
           let l' = if rand_int r 5 = 0 then l @ rand_bytes r (rand_int r 6) else l in
           index_case emit be true l' probes
         end
-  done
+  )
 
-(* ---- id 0 marks an unused slot and is therefore never present (known finding: find(0) = Some(0)) ---- *)
+(* ---- id 0 marks an unused slot and is therefore never present (regression for gimli 8339644) ---- *)
 let gen_findzero ~seed:_ ~n:_ emit =
   let case be l = emit_fixed emit (Printf.sprintf "c17.findzero %d %s" (bflag be) (hex_of_ints l)) "ok none" in
   List.iter (fun be ->
@@ -295,7 +296,7 @@ let gen_pkg ~seed ~n emit =
       let szs = List.init (units * nc) (fun i -> Z.of_int (1 + (i * 3) mod 11)) in
       for row = 0 to units + 1 do one (mask land 1 = 1) v2 cols units (Z.of_int row) lens offs szs done
     done) [true; false];
-  for _ = 1 to n do
+  for_random ~seed ~n (fun r ->
     let be = rand_bool r and v2 = rand_bool r in
     let codes = if v2 then v2_codes else v5_codes in
     let cols = List.filter (fun _ -> rand_int r 3 > 0) codes in
@@ -308,7 +309,7 @@ let gen_pkg ~seed ~n emit =
     let offs = List.init (units * nc) (fun _ -> small ()) in
     let szs = List.init (units * nc) (fun _ -> small ()) in
     one be v2 cols units (Z.of_int (rand_int r (units + 2))) lens offs szs
-  done
+  )
 
 (* ================================================================== .debug_names *)
 
@@ -523,7 +524,7 @@ let gen_names ~seed ~n emit =
     let l = build_names r be d ~bucket_override:None ~drop_hashes:false in
     names_case emit be true l (hash_probes r bc hashes)) [false; true] done) [0; 1; 2; 3; 5; 8];
   (* 4. random structured and malformed *)
-  for _ = 1 to n do
+  for_random ~seed ~n (fun r ->
     let be = rand_bool r in
     let bc = match rand_int r 6 with 0 -> 0 | 1 -> 1 | _ -> 1 + rand_int r 7 in
     let nc = rand_int r 9 in
@@ -550,7 +551,7 @@ let gen_names ~seed ~n emit =
       let l = if rand_bool r then mutate r l else l in
       names_case emit be false l (hash_probes r bc hashes)
     end
-  done
+  )
 
 (* ================================================================== djb hash *)
 
@@ -563,12 +564,12 @@ let gen_djb ~seed ~n emit =
   for a = 0 to 127 do k [a] done;
   for a = 0 to 127 do for b = 0 to 127 do k [a; b] done done;
   for a = 0x3f to 0x5c do for b = 0x3f to 0x5c do for c = 0x3f to 0x5c do k [a; b; c] done done done;
-  for _ = 1 to n do
+  for_random ~seed ~n (fun r ->
     let len = match rand_int r 5 with 0 -> rand_int r 4 | 1 -> 20 + rand_int r 60 | _ -> 1 + rand_int r 16 in
     k (List.init len (fun _ -> match rand_int r 6 with
         | 0 -> 0x41 + rand_int r 26 | 1 -> 0x61 + rand_int r 26 | 2 -> pick r [| 0x40; 0x5b; 0x60; 0x7b; 0x7f; 0; 0x5a; 0x41 |]
         | 3 -> 0x30 + rand_int r 10 | 4 -> 0x5f | _ -> rand_int r 128))
-  done
+  )
 
 let utf8 (cp : int) : int list =
   if cp < 0x80 then [cp]
@@ -588,14 +589,14 @@ let gen_djbfold ~seed ~n emit =
     done;
     if !cur <> [] then k (List.rev !cur) in
   block 0 0xffff; block 0x10000 0x10fff; block 0x16e00 0x16fff; block 0x1e900 0x1e9ff; block 0x10ff00 0x10ffff;
-  for _ = 1 to n do
+  for_random ~seed ~n (fun r ->
     let len = 1 + rand_int r 12 in
     k (List.init len (fun _ ->
       let cp = match rand_int r 6 with
         | 0 -> rand_int r 128 | 1 -> 0x80 + rand_int r 0x500 | 2 -> 0x1e00 + rand_int r 0x200
         | 3 -> 0x2c00 + rand_int r 0x100 | 4 -> 0x10400 + rand_int r 0x100 | _ -> rand_int r 0x110000 in
       if cp >= 0xd800 && cp <= 0xdfff then 0x130 else cp))
-  done
+  )
 
 (* ================================================================== aranges *)
 
@@ -664,7 +665,7 @@ let gen_aranges ~seed ~n emit =
                               ~tuples:[(Z.of_int 5, Z.of_int 5); (Z.of_int 2, m); (Z.of_int 6, Z.of_int 6)] ~tail:[]) [];
       aranges_case emit be (mk_arange_set be ~fmt64 ~version:2 ~info:Z.zero ~asz ~seg:0
                               ~tuples:[(Z.of_int 1, Z.pred m); (Z.of_int 1, m)] ~tail:[]) []) [false; true]) [1; 2; 4; 8]) [false; true];
-  for _ = 1 to n do
+  for_random ~seed ~n (fun r ->
     let be = rand_bool r in
     let nsets = 1 + rand_int r 3 in
     let offs = ref [] and total = ref 0 in
@@ -681,7 +682,7 @@ let gen_aranges ~seed ~n emit =
       offs := Z.of_int !total :: !offs; total := !total + List.length s; s)) in
     let l = if rand_int r 4 = 0 then mutate r l else l in
     aranges_case emit be l (List.rev !offs @ [Z.of_int (rand_int r (List.length l + 3))])
-  done
+  )
 
 (* ================================================================== pubnames / pubtypes *)
 
@@ -728,7 +729,7 @@ let gen_pub ~seed ~n emit =
       (* unterminated name *)
       pub_case emit kind be (mk_pub_set be ~fmt64 ~version:2 ~uoff:Z.one ~ulen:Z.one ~entries:[(Z.of_int 4, [0x61])] ~tail:(enc be w (Z.of_int 5) @ [0x62; 0x63]) @ nxt))
       [false; true]) ["n"; "t"]) [false; true];
-  for _ = 1 to n do
+  for_random ~seed ~n (fun r ->
     let be = rand_bool r in
     let kind = if rand_bool r then "n" else "t" in
     let nsets = 1 + rand_int r 3 in
@@ -742,7 +743,7 @@ let gen_pub ~seed ~n emit =
       mk_pub_set be ~fmt64 ~version:(if rand_int r 12 = 0 then rand_int r 5 else 2) ~uoff:(boundary_u32 r) ~ulen:(boundary_u32 r) ~entries ~tail)) in
     let l = if rand_int r 4 = 0 then mutate r l else l in
     pub_case emit kind be l
-  done
+  )
 
 (* ================================================================== indexed tables (oracle only) *)
 
@@ -766,7 +767,7 @@ let gen_indexed ~seed ~n emit =
         [u64max; p2 63; p2 62; p2 61; Z.pred (p2 61); p2 32; Z.div u64max (Z.of_int sz); Z.succ (Z.div u64max (Z.of_int sz))];
       List.iter (fun b -> case kind be sz b Z.zero l; case kind be sz b Z.one l) [u64max; p2 63; Z.of_int 40; Z.of_int 41])
       [("s", 4); ("s", 8); ("a", 1); ("a", 2); ("a", 4); ("a", 8)]) [false; true];
-  for _ = 1 to n do
+  for_random ~seed ~n (fun r ->
     let be = rand_bool r in
     let (kind, sz) = pick r [| ("s", 4); ("s", 8); ("a", 1); ("a", 2); ("a", 4); ("a", 8) |] in
     let len = rand_int r 64 in
@@ -774,7 +775,7 @@ let gen_indexed ~seed ~n emit =
     let base = if rand_int r 10 = 0 then boundary_z64 r else Z.of_int (rand_int r (len + 2)) in
     let index = if rand_int r 10 = 0 then boundary_z64 r else Z.of_int (rand_int r (len / sz + 2)) in
     case kind be sz base index l
-  done
+  )
 
 (* ================================================================== loader wiring + corpus (impl-side oracles) *)
 
@@ -812,7 +813,7 @@ let gen_corpus ~seed:_ ~n:_ emit =
 let () =
   register "c17.index" ~doc:"UnitIndex::parse/find/sections: tables built by insertion at every load factor (slot counts 1..32, colliding ids, full tables), every column-kind subset of v2/v5, every column code 0..300, rejected slot counts, version variants, mutated/truncated sections; every present id and absent ids probed; harness oracle find = exhaustive scan"
     gen_index;
-  register "c17.findzero" ~doc:"UnitIndex::find(0): id 0 is the unused-slot marker and never present (oracle; known finding on the unchanged tree)"
+  register "c17.findzero" ~doc:"UnitIndex::find(0) / DwarfPackage::find_cu(0) / find_tu(0): id 0 is the unused-slot marker and never present (regression for 8339644)"
     gen_findzero;
   register "c17.pkg" ~doc:"DwarfPackage::cu_sections contribution ranges (Section::dwp_range) for every column subset and row, random out-of-range contributions"
     gen_pkg;
